@@ -10,6 +10,8 @@ import (
 	"runtime"
 	"strconv"
 	"strings"
+	"sync"
+	"sync/atomic"
 	"testing"
 	"time"
 
@@ -87,7 +89,17 @@ type server struct {
 	cs    *stubCS
 	next  reply
 	calls int
+	// answers to the acquire calls of the background counter worker (used by the missing-replies sub-check only)
+	acqMode  int32 // acqGrant / acqSilent / acqFail
+	acqQuota int32
+	acqCalls int32
 }
+
+const (
+	acqGrant  = iota // every asked flow control is accepted with acqQuota
+	acqSilent        // the server answers, but without a result for the flow control (a missing reply)
+	acqFail          // the call fails
+)
 
 func newServer(tb bool) *server {
 	s := &server{cs: &stubCS{owner: goid()}}
@@ -113,6 +125,24 @@ func newServer(tb bool) *server {
 			}
 		}
 		return true, in, nil
+	})
+	fc.PrependReactor("create", "ratelimitconditions", func(action clienttesting.Action) (bool, k8sruntime.Object, error) {
+		if action.GetSubresource() != "acquire" {
+			return false, nil, nil
+		}
+		atomic.AddInt32(&s.acqCalls, 1)
+		req := action.(clienttesting.CreateAction).GetObject().(*proxyv1alpha1.RateLimitAcquire)
+		ans := req.DeepCopy()
+		ans.Status.Results = nil
+		switch atomic.LoadInt32(&s.acqMode) {
+		case acqFail:
+			return true, nil, fmt.Errorf("limiter server unreachable")
+		case acqGrant:
+			for _, r := range req.Spec.Requests {
+				ans.Status.Results = append(ans.Status.Results, proxyv1alpha1.RateLimitAcquireResult{FlowControl: r.FlowControl, Accept: true, Limit: atomic.LoadInt32(&s.acqQuota)})
+			}
+		}
+		return true, ans, nil
 	})
 	s.cs.client = fc
 	return s
@@ -707,6 +737,126 @@ func TestPropCountMaxInflight(t *testing.T) {
 			if sub.WantSample() {
 				sub.Sample(trace)
 			}
+		}
+	})
+}
+
+// TestPropMissingReplies: the real background worker and watchdog against a server that stops answering for a flow
+// control. The 4 s watchdog of the gateway is real time, so a case lasts about 10 s; several configurations run side by side.
+func TestPropMissingReplies(t *testing.T) {
+	sub := stats.NewSub("count-missing-replies", "rapid: 3-4 configurations side by side (global-count max-in-flight, local L in 1..3 < global G <= L+6, quotas Q1 in (L, G], Q2 in [1, G]) on the real UpstreamLimiter with its real background counter worker and reply watchdog; the scripted limiter server grants Q1, then for 7 s answers every acquire call WITHOUT a result for the flow control (or fails every call) while one request at a time keeps flowing, then grants Q2; oracle: never more than G admitted; after the silent period exactly L requests are admitted from empty (local limit, not the stale quota; judged when the limit is reached or at the latest 9.5 s after the last reply - the gateway's own bound is about 6 s); after recovery Q2 are admitted within 5 s; non-trivial = all; distinct by FNV-64 of the configuration")
+	stats.Check(t, stats.N(1, 4), func(t *rapid.T) {
+		type conf struct {
+			L, G, Q1, Q2 int32
+			Fail         bool
+		}
+		var confs []conf
+		for i, n := 0, rapid.IntRange(3, 4).Draw(t, "configurations"); i < n; i++ {
+			l := int32(rapid.IntRange(1, 3).Draw(t, fmt.Sprintf("L[%d]", i)))
+			g := l + int32(rapid.IntRange(2, 6).Draw(t, fmt.Sprintf("Gextra[%d]", i)))
+			confs = append(confs, conf{L: l, G: g,
+				Q1:   l + int32(rapid.IntRange(1, int(g-l)).Draw(t, fmt.Sprintf("Q1extra[%d]", i))),
+				Q2:   int32(rapid.IntRange(1, int(g)).Draw(t, fmt.Sprintf("Q2[%d]", i))),
+				Fail: rapid.IntRange(0, 3).Draw(t, fmt.Sprintf("failInsteadOfSilent[%d]", i)) == 0})
+		}
+		var wg sync.WaitGroup
+		var mu sync.Mutex
+		var problems []string
+		for _, c := range confs {
+			wg.Add(1)
+			go func(c conf) {
+				defer wg.Done()
+				desc := fmt.Sprintf("%+v", c)
+				fail := func(format string, a ...interface{}) {
+					mu.Lock()
+					problems = append(problems, fmt.Sprintf(format, a...)+" ("+desc+")")
+					mu.Unlock()
+				}
+				srv := newServer(false) // this goroutine owns the scripted readiness
+				atomic.StoreInt32(&srv.acqQuota, c.Q1)
+				ctx, cancel := context.WithCancel(context.Background())
+				defer cancel()
+				ul := flowcontrols.NewUpstreamLimiter(ctx, "c1", "", srv.cs)
+				defer ul.Sync(proxyv1alpha1.FlowControl{})
+				flowcontrols.VerifSetLimiterType(ul, flowcontrol.RemoteFlowControls)
+				ul.Sync(schemaMIF(proxyv1alpha1.GlobalCountLimit, c.L, c.G))
+				remote.VerifReconcileOnce(flowcontrols.VerifReconcile(ul))
+				srv.cs.ready = true
+				probe := func() int {
+					var hs []flowcontrol.FlowControl
+					for i := 0; i < int(c.G)+3; i++ {
+						fc := ul.GetOrDefault("s")
+						if !fc.TryAcquire() {
+							break
+						}
+						hs = append(hs, fc)
+					}
+					for _, h := range hs {
+						h.Release()
+					}
+					return len(hs)
+				}
+				waitProbe := func(want int, d time.Duration) (int, bool) {
+					deadline := time.Now().Add(d)
+					for {
+						n := probe()
+						if n > int(c.G) {
+							fail("%d requests admitted from empty exceed the global limit %d", n, c.G)
+							return n, false
+						}
+						if n == want {
+							return n, true
+						}
+						if time.Now().After(deadline) {
+							return n, false
+						}
+						time.Sleep(50 * time.Millisecond)
+					}
+				}
+				sub.Eval()
+				// 1. the server grants Q1
+				if n, ok := waitProbe(int(c.Q1), 5*time.Second); !ok {
+					if n <= int(c.G) {
+						sub.Inconclusive() // the grant did not arrive in time (loaded machine): nothing to judge
+					}
+					return
+				}
+				// 2. replies for the flow control stop; one request at a time keeps flowing
+				mode := int32(acqSilent)
+				if c.Fail {
+					mode = acqFail
+				}
+				atomic.StoreInt32(&srv.acqMode, mode)
+				silentFrom := time.Now()
+				for time.Since(silentFrom) < 7*time.Second {
+					fc := ul.GetOrDefault("s")
+					if fc.TryAcquire() {
+						time.Sleep(20 * time.Millisecond)
+						fc.Release()
+					}
+					time.Sleep(80 * time.Millisecond)
+				}
+				if n, ok := waitProbe(int(c.L), 2500*time.Millisecond); !ok && n <= int(c.G) {
+					fail("%.1f s after the last reply of the limiter server %d requests are admitted from empty: the local limit %d is not in force (stale quota %d)", time.Since(silentFrom).Seconds(), n, c.L, c.Q1)
+					return
+				}
+				// 3. the server recovers and grants Q2
+				atomic.StoreInt32(&srv.acqQuota, c.Q2)
+				atomic.StoreInt32(&srv.acqMode, acqGrant)
+				if n, ok := waitProbe(int(c.Q2), 5*time.Second); !ok && n <= int(c.G) {
+					fail("5 s after the limiter server answers again with quota %d, %d requests are admitted from empty", c.Q2, n)
+					return
+				}
+				sub.NonTrivial(stats.HashString(desc))
+				sub.Class(map[bool]string{true: "calls-fail", false: "replies-without-result"}[c.Fail])
+				if sub.WantSample() {
+					sub.Sample(desc)
+				}
+			}(c)
+		}
+		wg.Wait()
+		if len(problems) > 0 {
+			t.Fatalf("%s", strings.Join(problems, "\n"))
 		}
 	})
 }
